@@ -8,8 +8,16 @@
      insertion order); a dict cannot hold the same key twice - ruamel raises
      DuplicateKeyError while loading such a text - so association lists with a
      repeated key are no documents and the readers refuse them explicitly;
-   - mapping keys are strings (other key types are not identifiers and are
-     refused by the code; the harness sends them to the direct oracle only). *)
+   - mapping keys are strings.  A key of another type (YAML `null:`, `true:`,
+     `1e3:`) is refused wherever the code looks at keys (valid_identifier,
+     `key in [...]`, isinstance(key, str)); all the code can find out about it
+     is that it is no identifier, no keyword and differs from the other keys.
+     The harness hands such a key to the model as the byte 255 followed by its
+     repr - a string no Python str encodes to (strings are UTF-8 byte
+     sequences here), hence no identifier, no keyword, equal to no other key;
+   - [YNull] is Python's None (YAML `null`, `~`, an empty value): no number,
+     no boolean, no string, no list, no mapping - the readers refuse it in
+     every position through their "anything else" branches. *)
 From FrameModel Require Export Num.QcTac.
 From Coq Require Export String Ascii.
 Open Scope Qc_scope.
@@ -19,7 +27,8 @@ Inductive ytree : Type :=
 | YBool (b : bool)
 | YStr (s : string)
 | YList (l : list ytree)
-| YMap (m : list (string * ytree)).
+| YMap (m : list (string * ytree))
+| YNull.
 
 (* A Python number as FRAME sees it.  [is_number] is
    isinstance(n, numbers.Real) and the rectangle parser tests
